@@ -159,8 +159,15 @@ def _path(draw):
             "expect": "accept" if cls in ("str", "pathlike") else "reject"}
 
 
+@st.composite
+def _shared(draw):
+    """One template object (or the template objects of one map call) used by several workflows."""
+    return {"kind": "shared", "n_workflows": draw(st.integers(2, 3)), "template_wd": draw(st.sampled_from([None, None, "/tpl/dir"])),
+            "order": draw(st.permutations([0, 1, 2])), "via_map": draw(st.booleans())}
+
+
 def strategy(tier):
-    return st.one_of(_where(), _where(), _name(), _path(), st.just({"kind": "dupname"}), _mapcase())
+    return st.one_of(_where(), _where(), _name(), _path(), st.just({"kind": "dupname"}), _mapcase(), _shared())
 
 
 @st.composite
@@ -415,5 +422,35 @@ def run_map(case):
     return CaseResult(viols, k >= 2, ["map", "naming-" + case["naming"]])
 
 
+def run_shared(case):
+    """A template belongs to nobody: each workflow that instantiates it resolves its paths against its own
+    working directory, whatever other workflows did with the same template object before."""
+    from gwf import AnonymousTarget, Workflow
+
+    dirs = ["/proj/a", "/proj/b", "/proj/c"][: case["n_workflows"]]
+    kw = {"working_dir": case["template_wd"]} if case["template_wd"] else {}
+    tpl = AnonymousTarget(inputs=["in.txt"], outputs=["out.txt"], options={}, spec="x", **kw)
+    flows = {d: Workflow(working_dir=d) for d in dirs}
+    viols = []
+    for k in [i for i in case["order"] if i < len(dirs)]:
+        d = dirs[k]
+        if case["via_map"]:
+            t = flows[d].map(lambda item: tpl, ["only"], name=f"M{k}")[0]
+        else:
+            t = flows[d].target_from_template(f"T{k}", tpl)
+        want = case["template_wd"] or d
+        got = [os.path.dirname(p) for p in t.flattened_inputs() + t.flattened_outputs()]
+        if any(g != want for g in got) or t.working_dir != want:
+            viols.append(Violation({"kind": "template-working-dir-leaks-between-workflows"},
+                                   f"workflow {d}: target from a shared template resolves its files in {sorted(set(got))} "
+                                   f"(working_dir {t.working_dir!r}), expected {want}"))
+    if (tpl.working_dir or None) != case["template_wd"]:
+        viols.append(Violation({"kind": "template-mutated"},
+                               f"the caller's template object was modified: working_dir is now {tpl.working_dir!r}"))
+    return CaseResult(viols, True, ["shared-template"])
+
+
 def run_case(case):
+    if case["kind"] == "shared":
+        return run_shared(case)
     return {"where": run_where, "name": run_name, "path": run_path, "dupname": run_dup, "map": run_map}[case["kind"]](case)
